@@ -289,6 +289,7 @@ class C20(Prop):
                 return f"{nm}:{v_}:{rng.choice('ssrhcdcd')}:{rng.randint(0, 1)}:{rng.choice('00122234')}"
             nops = rng.choice([2, 4, 6, 8, 8, 10, 12])
             recent = []         # (genome, gene) pairs a mutate was tried on: rollbacks prefer them
+            recent_expr = []    # (genome, gene) pairs an expression wrapper was used on
             for _ in range(nops):
                 i = rng.randrange(count) if rng.random() < 0.97 else count + 1
                 nm = rng.choice(names) if rng.random() < 0.93 else len(names) + 1
@@ -308,12 +309,16 @@ class C20(Prop):
                         lines.append(f"rollback {i} {nm}")       # rolling back twice = redo
                 elif r < 0.52:
                     lines.append(f"add {i} {readd(nm)}")
-                elif r < 0.58:
-                    lines.append(f"expr {i} {nm} {rng.choice('01234')}")
-                elif r < 0.62:
-                    lines.append(f"silence {i} {nm}")
-                elif r < 0.65:
-                    lines.append(f"activate {i} {nm}")
+                elif r < 0.66:
+                    # expression wrappers, favouring repeats on the same gene (silence, silence, activate …)
+                    if recent_expr and rng.random() < 0.6:
+                        i, nm = rng.choice(recent_expr[-2:])
+                    recent_expr.append((i, nm))
+                    for _k in range(rng.choice([1, 1, 2, 3, 4])):
+                        w_ = rng.choice(["silence", "silence", "activate", "activate", "expr"])
+                        lines.append(f"{w_} {i} {nm}" + (f" {rng.choice('00234')}" if w_ == "expr" else ""))
+                        if sandwich and rng.random() < 0.3:
+                            lines.append(f"express {i} {rng.choice(ctxpool)}")
                 elif r < 0.80:
                     k = rng.choice([0, 0, 1, 1, 2])
                     ms = rng.sample(names + [len(names) + 1], min(k, len(names) + 1))
@@ -397,6 +402,23 @@ class C20(Prop):
         spaces.append({"name": f"all histories of depth <= {dE} over a 10-operation express/re-add/silence/mutate/replicate "
                                "alphabet, bracketed by express() with three context sets x 2 gate configurations",
                        "cases": cE})
+        # every sequence of <= 3 (quick) / 4 (thorough) expression operations on one gene x each initial (default) level, then on a child that
+        # inherited / did not inherit the level
+        alphaW = ["silence 0 0", "activate 0 0", "expr 0 0 0", "expr 0 0 3", "express 0 -"]
+        cW = []
+        for l0 in "01234":
+            nw = f"new 0 none 0 0:1:s:1:{l0} 1:2:c:0:2"
+            for k in range(1, (4 if tier == "quick" else 5)):
+                for ops in itertools.product(alphaW, repeat=k):
+                    cW.append({"lines": ["adv - -", nw] + list(ops) + ["express 0 -", "getv 0 0"],
+                               "note": f"exhaustive expression wrappers, initial level {l0}"})
+            for inh in "01":
+                for k in range(1, 4):
+                    for ops in itertools.product(["silence 1 0", "activate 1 0", "express 1 -"], repeat=k):
+                        cW.append({"lines": ["adv - -", nw, f"replicate 0 {inh} -"] + list(ops) + ["express 1 -", "express 0 -"],
+                                   "note": f"exhaustive expression wrappers on a child, initial level {l0}, inherit {inh}"})
+        spaces.append({"name": f"all sequences of <= {3 if tier == 'quick' else 4} expression operations (silence/activate/set_expression/express) on one "
+                               "gene x 5 initial levels, and of <= 3 on a child x inherit on/off", "cases": cW})
         if tier != "quick":
             # depth 5 on the operations that interact through the log (approve / refuse / rollback / replicate)
             alpha5 = ["mutate 0 0 7", "mutate 0 0 5", "mutate 0 1 8", "rollback 0 0", "replicate 0 1 0:7",
@@ -467,10 +489,13 @@ class C20(Prop):
                         rec["name"] = str(parsed[2])
                         res = f"ret {show_bool(g.rollback_mutation(gname(parsed[2])))}"
                     elif kind == "expr":
+                        rec["name"], rec["level"] = str(parsed[2]), str(parsed[3])
                         res = f"ret {show_bool(g.set_expression(gname(parsed[2]), m.ExpressionLevel(parsed[3])))}"
                     elif kind == "silence":
+                        rec["name"], rec["level"] = str(parsed[2]), "0"
                         res = f"ret {show_bool(g.silence_gene(gname(parsed[2])))}"
                     elif kind == "activate":
+                        rec["name"], rec["level"] = str(parsed[2]), "2"
                         res = f"ret {show_bool(g.activate_gene(gname(parsed[2])))}"
                     elif kind == "replicate":
                         muts = {gname(n): val(v) for n, v in parsed[3]}
@@ -745,6 +770,23 @@ class C20(Prop):
                     if c["parent_hash"] != b["hash"]:
                         V("child_differs_only_in_authorised", "child.parent_hash = parent's hash at replication",
                           f"{c['parent_hash']} vs {b['hash']}", idx)
+
+            # (E0) changing expression: set_expression(g, L) / silence_gene (SILENCED) / activate_gene (NORMAL) on an
+            # existing gene reports True and leaves exactly that gene at exactly the requested level — "non-silenced"
+            # in the express clause means: the last expression operation on the gene was not a silencing
+            if op in ("expr", "silence", "activate") and not raised and "level" in r:
+                n, lvl = r["name"], r["level"]
+                want_expr = dict(b["expr"])
+                if n in b["genes"]:
+                    want_expr[n] = lvl
+                    if r["res"] != "ret 1":
+                        V("expression_applied", f"{op} on existing gene {n} returns True", r["res"], idx)
+                elif r["res"] != "ret 0":
+                    V("expression_applied", f"{op} on missing gene {n} returns False", r["res"], idx)
+                if a["expr"] != want_expr:
+                    V("expression_applied", f"expression levels {want_expr} after {r['line']!r}", f"{a['expr']}", idx)
+            elif op not in ("add", "replicate", "new", "fromdict") and not raised and a["expr"] != b["expr"]:
+                V("expression_applied", f"expression levels untouched by {r['line']!r}", f"{b['expr']} -> {a['expr']}", idx)
 
             # (E) express: exactly the non-silenced, non-dormant genes, conditional ones only when named
             if op == "express" and not raised and "config" in r:
